@@ -56,7 +56,7 @@ def check_day(dt, rep):
 def run(tier, rng, rep):
     exhaustive = tier == "thorough"
     rep.bound = ("every dekad 0001-01-d1 .. 9999-12-d3 (359,964) and every day 0001-01-01 .. 9999-12-31 (3,652,059)" if exhaustive else
-                 "every dekad of 1,200 years (boundary years 1, 2, 4, 100, 400, 1582, 1900, 2000, 9998, 9999 + 1990..2050 + random years) and every day of 130 of those years")
+                 "every dekad of 1,200 years (boundary years 1, 2, 4, 100, 400, 1582, 1900, 2000, 9998, 9999 + 1990..2050 + random years) and every day of 130 of those years; accessor: 305 dates + 200 random intra-day instants + boundary instants of 3 years x 4 months")
     rep.rule = "calendar enumerated; distinct = distinct dekad / day; non-trivial = every case (all laws evaluated)"
     years_all = range(1, 10000)
     special = [1, 2, 3, 4, 5, 99, 100, 101, 400, 401, 1582, 1899, 1900, 1901, 1999, 2000, 2001, 2023, 2024, 2100, 9996, 9997, 9998, 9999]
@@ -126,7 +126,13 @@ def run(tier, rng, rep):
             pass
     # accessor: element-wise equal to the scalar class
     times = pd.DatetimeIndex([pd.Timestamp(int(y), int(m), int(dd)) for y, m, dd in zip(rng.integers(1700, 2200, 300), rng.integers(1, 13, 300), rng.integers(1, 29, 300))]
-                             + [pd.Timestamp(2024, 2, 29), pd.Timestamp(2023, 12, 31), pd.Timestamp(2000, 1, 1), pd.Timestamp(2021, 1, 31), pd.Timestamp(2021, 3, 21)])
+                             + [pd.Timestamp(2024, 2, 29), pd.Timestamp(2023, 12, 31), pd.Timestamp(2000, 1, 1), pd.Timestamp(2021, 1, 31), pd.Timestamp(2021, 3, 21)]
+                             # intra-day instants, in particular the afternoon / last microsecond of the last day of a dekad and the first microsecond of the next one
+                             + [pd.Timestamp(int(y), int(m), int(dd)) + pd.Timedelta(microseconds=int(us)) for y, m, dd, us in
+                                zip(rng.integers(1700, 2200, 200), rng.integers(1, 13, 200), rng.integers(1, 29, 200), rng.integers(0, 86400 * 10 ** 6, 200))]
+                             + [pd.Timestamp(yy, mm, dd) + pd.Timedelta(microseconds=us) for yy in (1900, 2021, 2024) for mm in (1, 2, 4, 12)
+                                for dd in (1, 10, 11, 20, 21, 28, 29 if (mm != 2 or yy == 2024) else 28, 30 if mm != 2 else 28, 31 if mm in (1, 12) else 28)
+                                for us in (1, 43200 * 10 ** 6, 66600 * 10 ** 6, 86400 * 10 ** 6 - 1)])
     da = xr.DataArray(np.arange(len(times)), dims=("time",), coords={"time": times})
     acc = da.time.dekad
     rep.case("accessor.dekad", {"n": len(times)})
